@@ -162,12 +162,16 @@ package client
 
 // ---- msg.go: subject parsers (C12: never crash on any subject / payload) ------------------
 //@ func DecodeNodePointsMsg
-//@   props C12
+//@   props C12, C06
 //@   local msg *nats.Msg#1
+//@   fresh res1
+//@   ensures [C06] names-the-message: res2 == nil ==> res0 == splitPart(msg.Subject, ".", 1) && len(res1) == pbN(msg.Data) && (forall k int :: 0 <= k && k < len(res1) ==> res1[k] == pbPt(msg.Data, k))
 //@   requires msg != nil
 //@ func DecodeEdgePointsMsg
-//@   props C12
+//@   props C12, C06
 //@   local msg *nats.Msg#1
+//@   fresh res2
+//@   ensures [C06] names-the-message: res3 == nil ==> res0 == splitPart(msg.Subject, ".", 1) && res1 == splitPart(msg.Subject, ".", 2) && len(res2) == pbN(msg.Data) && (forall k int :: 0 <= k && k < len(res2) ==> res2[k] == pbPt(msg.Data, k))
 //@   requires msg != nil
 //@ func DecodeUpNodePointsMsg
 //@   props C12
